@@ -259,13 +259,20 @@ static int json_escape_str(struct printbuf *pb, const char *str, size_t len, int
 
 /* reference counting */
 
+/* Read the counter for the sanity checks without racing against concurrent get/put */
+#if defined(HAVE_ATOMIC_BUILTINS) && defined(ENABLE_THREADING)
+#define JC_REF_COUNT(jso) __sync_add_and_fetch(&(jso)->_ref_count, 0)
+#else
+#define JC_REF_COUNT(jso) ((jso)->_ref_count)
+#endif
+
 struct json_object *json_object_get(struct json_object *jso)
 {
 	if (!jso)
 		return jso;
 
 	// Don't overflow the refcounter.
-	assert(jso->_ref_count < UINT32_MAX);
+	assert(JC_REF_COUNT(jso) < UINT32_MAX);
 
 #if defined(HAVE_ATOMIC_BUILTINS) && defined(ENABLE_THREADING)
 	__sync_add_and_fetch(&jso->_ref_count, 1);
@@ -284,7 +291,7 @@ int json_object_put(struct json_object *jso)
 	/* Avoid invalid free and crash explicitly instead of (silently)
 	 * segfaulting.
 	 */
-	assert(jso->_ref_count > 0);
+	assert(JC_REF_COUNT(jso) > 0);
 
 #if defined(HAVE_ATOMIC_BUILTINS) && defined(ENABLE_THREADING)
 	/* Note: this only allow the refcount to remain correct
